@@ -159,6 +159,23 @@ w1.__signature__ = signatures.signature(other).replace(sources={{}})
 @functools.wraps(w1)
 def w2(*args, **kwargs): return w1(*args, **kwargs)
 ''', ['w1', 'w2']),
+    _mk('forger_implicit_classmethod', '''
+def inner({inner}): return 'inner'
+class K(object):
+    @specifiers.forwards_to_function(inner, 1, emulate=True)
+    def __class_getitem__(cls, {outer}*args, **kwargs): return inner(1, *args, **kwargs)
+    @specifiers.forwards_to_function(inner, 1, emulate=True)
+    def __init_subclass__(cls, {outer}*args, **kwargs): return None
+''', ['K.__class_getitem__']),
+    _mk('wraps_factory', '''
+def inner({inner}): return 'inner'
+def factory(t):
+    @functools.wraps(inner)
+    def w({outer}*args, timeout=t, **kwargs): return inner(1, *args, **kwargs)
+    return w
+w1 = factory(1)
+w2 = factory(30)
+''', ['w1', 'w2']),
     _mk('as_forged_class', '''
 class K(object):
     __signature__ = specifiers.as_forged
